@@ -102,6 +102,7 @@ def menu(spec, tier):
                 ops.append(["personalize", algo, "B", f, "default"])
     if spec["kind"] == "logistic":
         ops.append(["simulate", "dataframe"])
+        ops.append(["simulate", "dataframe_int"])
         if tier != "quick":
             ops.append(["simulate", "random"])
     ops.append(["reload"])
@@ -114,7 +115,7 @@ def bounds(tier):
             "models": list(QUICK_SPECS),
             "depth": 3,
             "menu": "fit(A), fit(D, annealing on), estimate, personalize: scipy(A), scipy(B, custom solver options), scipy(C), "
-                    "mode(B, annealing on + custom sampler parameters), mean(B), simulate[dataframe] (logistic), save+load; "
+                    "mode(B, annealing on + custom sampler parameters + population samplers requested), mean(B), simulate[table with string | integer identifiers] (logistic), save+load; "
                     "input forms rotate over DataFrame with columns / DataFrame indexed by (ID, TIME) / Data / Dataset",
             "seeds": "algorithm seed 0 (+ VERIF_SEED on the first model)",
         }
@@ -122,8 +123,8 @@ def bounds(tier):
         "models": list(THOROUGH_SPECS),
         "depth": dict(THOROUGH_DEPTH),
         "menu": "fit(A), fit(D, annealing on), estimate, personalize: 3 algorithms x (cohort A default settings, cohort B custom "
-                "settings = annealing on + sampler parameters / custom solver options) + scipy/mode on the single-individual cohort C + every input form for scipy_minimize/B and "
-                "mode_posterior/B, simulate[dataframe|random] (logistic), save+load",
+                "settings = annealing on + sampler parameters + population samplers requested / custom solver options) + scipy/mode on the single-individual cohort C + every input form for scipy_minimize/B and "
+                "mode_posterior/B, simulate[table with string ids | table with integer ids | random] (logistic), save+load",
         "seeds": "algorithm seed 0 (+ VERIF_SEED on the first two models)",
     }
 
